@@ -136,3 +136,105 @@ class check_witness_program_v0:
 
     raises = [(ScriptError, _refused, True)]
     canaries = [("if len(witness_solution_stack) != 2:", "if len(witness_solution_stack) < 2:")]
+
+
+# ---------------------------------------------------------------- truthiness and numeric operand helpers of the VM
+from contracts.c03_handlers import VM as VMB, cast_to_bool, num_ok, minimal_flag
+from spec.scriptnum import scriptnum_enc, scriptnum_dec, is_minimal_num
+from pycoin.coins.bitcoin.VM import BitcoinVM
+
+
+@contract("pycoin.coins.bitcoin.VM:BitcoinVM.bool_from_script_bytes")
+class bool_from_script_bytes:
+    """Core's CastToBool: false exactly for strings of zero bytes with an optional 0x80 in the last position (any length)"""
+    props = ["C03"]
+    inline = True          # handlers keep using the body
+    sig = dict(class_=Const(BitcoinVM), v=Bytes(sample_max=6, interesting=[b"", b"\x00", b"\x80", b"\x00\x80", b"\x01", b"\x00\x00\x00\x00\x00\x01"]), require_minimal=Const(False))
+    returns = Bool()
+
+    def ensures_cast(class_, v, require_minimal, result):
+        return result == cast_to_bool(v)
+
+
+@contract("pycoin.coins.bitcoin.VM:BitcoinVM.bool_to_script_bytes")
+class bool_to_script_bytes:
+    props = ["C03"]
+    inline = True
+    sig = dict(class_=Const(BitcoinVM), v=Bool())
+    returns = Bytes()
+
+    def ensures_canonical(class_, v, result):
+        return result == (b"\x01" if v else b"")
+
+
+@contract("pycoin.coins.bitcoin.VM:BitcoinVM.pop_int")
+class pop_int:
+    """numeric operand: the top item decoded as a script number, refused when MINIMALDATA is set and the item is not minimal (the
+    4-byte limit is applied by the callers: pop_check_bounds / pop_nonnegative)"""
+    props = ["C03"]
+    inline = True
+    sig = dict(self=VMB)
+    returns = Int()
+    assigns = ["self.stack"]
+
+    def _fails(self):
+        s = listval(self.stack)
+        return len(s) == 0 or (minimal_flag(self) and not is_minimal_num(s[len(s) - 1]))
+
+    def ensures_value(self, result):
+        s = old(listval(self.stack))
+        return (result == scriptnum_dec(s[len(s) - 1]), listval(self.stack) == s[:len(s) - 1])
+
+    raises = [(ScriptError, _fails, True)]
+
+
+@contract("pycoin.coins.bitcoin.VM:BitcoinVM.push_int")
+class push_int:
+    props = ["C03"]
+    inline = True
+    sig = dict(self=VMB, v=Int())
+    assigns = ["self.stack"]
+
+    def ensures_pushed(self, v, result):
+        return listval(self.stack) == old(listval(self.stack)) + (scriptnum_enc(v),)
+
+
+@contract("pycoin.satoshi.intops:pop_check_bounds")
+class pop_check_bounds:
+    """a numeric operand of an arithmetic opcode: at most 4 bytes, minimal under MINIMALDATA (CScriptNum with nMaxNumSize 4)"""
+    props = ["C03"]
+    inline = True
+    sig = dict(vm=VMB)
+    returns = Int()
+    assigns = ["vm.stack"]
+
+    def _fails(vm):
+        s = listval(vm.stack)
+        return len(s) == 0 or not num_ok(vm, s[len(s) - 1])
+
+    def ensures_value(vm, result):
+        s = old(listval(vm.stack))
+        return (result == scriptnum_dec(s[len(s) - 1]), listval(vm.stack) == s[:len(s) - 1])
+
+    raises = [(ScriptError, _fails, True)]
+    canaries = [("len(vm[-1]) > 4", "len(vm[-1]) > 5")]
+
+
+@contract("pycoin.coins.bitcoin.VM:BitcoinVM.pop_nonnegative")
+class pop_nonnegative:
+    """a count / depth operand (PICK, ROLL, CHECKMULTISIG): as above and not negative"""
+    props = ["C03"]
+    inline = True
+    sig = dict(self=VMB)
+    returns = Int()
+    assigns = ["self.stack"]
+
+    def _fails(self):
+        s = listval(self.stack)
+        return len(s) == 0 or not num_ok(self, s[len(s) - 1]) or scriptnum_dec(s[len(s) - 1]) < 0
+
+    def ensures_value(self, result):
+        s = old(listval(self.stack))
+        return (result == scriptnum_dec(s[len(s) - 1]), result >= 0, listval(self.stack) == s[:len(s) - 1])
+
+    raises = [(ScriptError, _fails, True)]
